@@ -417,3 +417,62 @@ Proof. intros. unfold last_change. apply max_id_cons. Qed.
 
 Lemma last_change_le : forall lg p M, (forall e, In e lg -> e_id e <= M) -> last_change lg p <= M.
 Proof. intros. unfold last_change. apply max_id_le. assumption. Qed.
+
+(** * the scanning loop removes everything it is asked to remove *)
+
+Lemma swap_remove_nth_lt : forall {A} i (l : list A) j,
+  (j < i)%nat -> (i < length l)%nat -> nth_error (swap_remove i l) j = nth_error l j.
+Proof.
+  intros A i l. revert i. induction l as [|h t IH]; intros i j Hj Hi.
+  - cbn in Hi. lia.
+  - destruct i as [|k]; [lia|]. cbn [swap_remove]. destruct j as [|j']; [reflexivity|].
+    cbn [nth_error]. apply IH; cbn [length] in Hi; lia.
+Qed.
+
+Lemma swap_remove_length_lt : forall {A} i (l : list A),
+  (i < length l)%nat -> length l = S (length (swap_remove i l)).
+Proof.
+  intros A i l Hi. destruct (nth_error l i) as [x|] eqn:Hn.
+  - revert i x Hi Hn. induction l as [|h t IH]; intros i x Hi Hn.
+    + destruct i; discriminate.
+    + destruct i as [|k]; cbn [swap_remove].
+      * destruct t as [|z t']; [reflexivity|]. cbn [length]. f_equal.
+        assert (G : forall (l : list A), l <> [] -> length l = S (length (removelast l))).
+        { clear. induction l as [|a l IHl]; [congruence|]. intros _. destruct l as [|b l]; [reflexivity|].
+          cbn [removelast length] in *. f_equal. apply IHl. discriminate. }
+        apply (G (z :: t')). discriminate.
+      * cbn [length]. f_equal. cbn [length] in Hi. apply (IH k x); [lia|exact Hn].
+  - apply nth_error_None in Hn. lia.
+Qed.
+
+Lemma swap_filter_aux_sound : forall {A} (rm : A -> bool) fuel i l,
+  (forall j y, (j < i)%nat -> nth_error l j = Some y -> rm y = false) ->
+  (length l - i <= fuel)%nat ->
+  forall y, In y (swap_filter_aux rm fuel i l) -> rm y = false.
+Proof.
+  intros A rm fuel. induction fuel as [|f IH]; intros i l Hpre Hfuel y Hin.
+  - cbn [swap_filter_aux] in Hin. apply In_nth_error in Hin. destruct Hin as [j Hj].
+    apply (Hpre j y); [|exact Hj].
+    assert (j < length l)%nat by (apply nth_error_Some; congruence). lia.
+  - cbn [swap_filter_aux] in Hin. destruct (nth_error l i) as [x|] eqn:Hn.
+    + assert (Hi : (i < length l)%nat) by (apply nth_error_Some; congruence).
+      destruct (rm x) eqn:Hx.
+      * apply (IH i (swap_remove i l)); [| |exact Hin].
+        -- intros j z Hj Hz. rewrite swap_remove_nth_lt in Hz by assumption. apply (Hpre j z); assumption.
+        -- pose proof (swap_remove_length_lt i l Hi). lia.
+      * apply (IH (S i) l); [| |exact Hin].
+        -- intros j z Hj Hz. destruct (Nat.eq_dec j i) as [E|E].
+           ++ subst j. rewrite Hn in Hz. injection Hz as Hz. subst z. exact Hx.
+           ++ apply (Hpre j z); [lia|exact Hz].
+        -- lia.
+    + apply nth_error_None in Hn. apply In_nth_error in Hin. destruct Hin as [j Hj].
+      apply (Hpre j y); [|exact Hj].
+      assert (j < length l)%nat by (apply nth_error_Some; congruence). lia.
+Qed.
+
+Lemma swap_filter_sound : forall {A} (rm : A -> bool) l y, In y (swap_filter rm l) -> rm y = false.
+Proof.
+  intros A rm l y. unfold swap_filter. apply swap_filter_aux_sound.
+  - intros j z Hj. lia.
+  - lia.
+Qed.
